@@ -44,6 +44,7 @@ type params struct {
 	Mode   string `json:"mode"` // frames | flood | floodmix
 	Tables string `json:"tables"`
 	Offset int    `json:"offset"`
+	Config string `json:"config,omitempty"` // TOML fragment with listener options
 }
 
 const perScn = 64
@@ -74,6 +75,11 @@ func (prop) Plan(tier string, seed int64) []core.Batch {
 		p, _ := json.Marshal(params{Mode: "frames", Tables: t, Offset: 40 * (i + 1)})
 		plan = append(plan, core.Batch{Name: "frames/" + t, N: 40, Params: p, Timeout: 600})
 	}
+	// the enumerated frames once more with every switch of the [listener] table an operator can set turned on
+	// (do_arp), applied through the configuration decoder
+	ne := (len(enumerated()) + perScn - 1) / perScn
+	pc, _ := json.Marshal(params{Mode: "frames", Tables: "direct", Offset: 0, Config: "do_arp=true\n"})
+	plan = append(plan, core.Batch{Name: "frames/direct+do_arp", N: ne, Params: pc, Timeout: 900})
 	for _, t := range []string{"direct", "gateway", "none", "route-only", "mixed"} {
 		p, _ := json.Marshal(params{Mode: "flood", Tables: t})
 		plan = append(plan, core.Batch{Name: "flood/" + t, N: 1, Params: p, Timeout: 900})
@@ -359,6 +365,7 @@ func (prop) Child(b core.Batch, o *core.Obs) {
 		to = b.N
 	}
 	peers := []net.IP{peerIP, net.IPv4(198, 18, 0, 2)}
+	lab.CanaryConfig = p.Config
 	switch p.Mode {
 	case "frames":
 		h, err := lab.StartCanary("canary", p.Tables, peers, true)
